@@ -43,41 +43,44 @@ class DefaultDeploymentManager(DeploymentManager):
                 self.events_map[deployment_name] = asyncio.Event()
                 self.dependency_graph[deployment_name] = set()
                 connector_type = connector_classes[deployment_config.type]
-                deployment_config = await self._inner_deploy(
-                    connector_type=connector_type,
-                    deployment_config=deployment_config,
-                )
-                if deployment_config.lazy:
-                    connector = FutureConnector(
-                        name=deployment_name,
-                        config_dir=os.path.dirname(self.context.config["path"]),
+                try:
+                    deployment_config = await self._inner_deploy(
                         connector_type=connector_type,
-                        external=deployment_config.external,
-                        **deployment_config.config,
+                        deployment_config=deployment_config,
                     )
-                    self.deployments_map[deployment_name] = connector
-                    self.events_map[deployment_name].set()
-                else:
-                    connector = connector_type(
-                        deployment_name,
-                        self.context.config["path"],
-                        **deployment_config.config,
-                    )
-                    self.deployments_map[deployment_name] = connector
-                    if logger.isEnabledFor(logging.INFO):
-                        if not deployment_config.external:
-                            logger.info(f"DEPLOYING {deployment_name}")
-                    try:
+                    if deployment_config.lazy:
+                        connector = FutureConnector(
+                            name=deployment_name,
+                            config_dir=os.path.dirname(self.context.config["path"]),
+                            connector_type=connector_type,
+                            external=deployment_config.external,
+                            **deployment_config.config,
+                        )
+                        self.deployments_map[deployment_name] = connector
+                    else:
+                        connector = connector_type(
+                            deployment_name,
+                            self.context.config["path"],
+                            **deployment_config.config,
+                        )
+                        self.deployments_map[deployment_name] = connector
+                        if logger.isEnabledFor(logging.INFO):
+                            if not deployment_config.external:
+                                logger.info(f"DEPLOYING {deployment_name}")
                         await connector.deploy(deployment_config.external)
-                    except Exception:
-                        self.deployments_map.pop(deployment_name)
-                        self.events_map[deployment_name].set()
-                        raise
-                    if logger.isEnabledFor(logging.INFO):
-                        if not deployment_config.external:
-                            logger.info(f"COMPLETED deployment of {deployment_name}")
+                        if logger.isEnabledFor(logging.INFO):
+                            if not deployment_config.external:
+                                logger.info(
+                                    f"COMPLETED deployment of {deployment_name}"
+                                )
+                except Exception:
+                    # Wake up the requests waiting for this deployment: they fail
+                    # because the deployment is not in the `deployments_map`
+                    self.deployments_map.pop(deployment_name, None)
                     self.events_map[deployment_name].set()
-                    break
+                    raise
+                self.events_map[deployment_name].set()
+                break
             else:
                 await self.events_map[deployment_name].wait()
                 if deployment_name not in self.deployments_map:
